@@ -500,6 +500,33 @@ fn index_width_cases(coin: &'static Coin, only: Option<usize>) -> Vec<(String, C
         }
         v.push((format!("nothing left to list ({}): header line only", if variant == 0 { "everything spent again" } else { "no output with an address" }), cb));
     }
+    // the inputs of one transaction are independent of each other: an input that finds nothing to remove (it names an output
+    // without address, an output created below the range, an unknown transaction, the null outpoint) says nothing about the
+    // inputs behind it - also when they name the SAME earlier transaction
+    if !want(&v) {
+        skip(&mut v);
+    } else {
+        use refmodel::chain::coinbase;
+        let mut cb = ChainBuilder::with_genesis(coin);
+        let a = |k: u8| script::p2pkh(&script::h20(200 + k));
+        let f = coinbase(1, 41, vec![
+            TxOut { value: 11, script: script::multisig(1, &[&script::key33(9)], 1) },
+            TxOut { value: 15, script: a(1) },
+            TxOut { value: 0, script: script::op_return(b"data") },
+            TxOut { value: 40, script: a(2) },
+            TxOut { value: 7, script: vec![0x51] },
+            TxOut { value: 9, script: a(3) },
+        ]);
+        let fid = f.txid();
+        cb.push_raw(vec![f]);
+        let t1 = Tx { version: 1, segwit: false, inputs: vec![TxIn::spend(fid, 0), TxIn::spend(fid, 1)], outputs: vec![TxOut { value: 20, script: a(4) }], locktime: 0, wide: 0 };
+        let t2 = Tx { version: 1, segwit: false, inputs: vec![TxIn::spend([0x5a; 32], 3), TxIn::spend(fid, 3), TxIn::spend(fid, 2)], outputs: vec![TxOut { value: 30, script: a(5) }], locktime: 0, wide: 0 };
+        let mut null_first = TxIn::spend([0u8; 32], 0xffff_ffff);
+        null_first.script_sig = vec![0x51];
+        let t3 = Tx { version: 1, segwit: false, inputs: vec![null_first, TxIn::spend(fid, 4), TxIn::spend(fid, 5)], outputs: vec![TxOut { value: 8, script: a(6) }], locktime: 0, wide: 0 };
+        cb.push(vec![t1, t2, t3]);
+        v.push(("spends whose first input finds nothing to remove (no address / unknown / null outpoint), later inputs naming the same transaction".to_string(), cb));
+    }
     // a big UTXO set: 250 000 unspent outputs over 40 addresses (5 transactions of 50 000 outputs), 10 000 of them spent again
     if !want(&v) {
         skip(&mut v);
